@@ -77,3 +77,27 @@ Example C06_nonvacuous :
   exists q, inst guards_sound p [0] [App (EVar 1) (SVar 4)] = Some q /\ concrete q = true /\
             efree 3 q = false /\ socc false 5 q = false /\ sfree 5 q = true.
 Proof. vm_compute. repeat split. eexists. repeat split. Qed.
+
+(** ** the theorems hold of the judgement functions as they are written in the CURRENT rust/src/lib.rs:
+       Gen/Judge.v is regenerated from the source on every run (translators/rust_judge.py) and proved
+       equal to the model the lemmas above are about *)
+From Pi2 Require Import Gen.Judge ML.GenAgree.
+Theorem C06_judgements_translation_validated :
+  (forall p x, gen_e_fresh p x = e_fresh p x) /\ (forall p X, gen_s_fresh p X = s_fresh p X) /\
+  (forall p X, gen_positive p X = pat_positive p X) /\ (forall p X, gen_negative p X = pat_negative p X) /\
+  (forall p, gen_is_redundant_subst p = is_redundant_subst p) /\ (forall p, gen_well_formed p = well_formed p).
+Proof.
+  exact (conj gen_e_fresh_eq (conj gen_s_fresh_eq (conj gen_positive_eq (conj gen_negative_eq
+           (conj gen_is_redundant_subst_eq gen_well_formed_eq))))).
+Qed.
+Print Assumptions C06_judgements_translation_validated.
+
+Corollary C06_source_judgements_sound : forall p v vars plugs q,
+  inst guards_sound p vars plugs = Some q -> concrete q = true ->
+  (gen_e_fresh p v = true -> efree v q = false) /\ (gen_s_fresh p v = true -> sfree v q = false) /\
+  (gen_positive p v = true -> socc false v q = false) /\ (gen_negative p v = true -> socc true v q = false).
+Proof.
+  intros p v vars plugs q Hi Hc. rewrite gen_e_fresh_eq, gen_s_fresh_eq, gen_positive_eq, gen_negative_eq.
+  repeat split; intros H; [eapply C06_e_fresh_sound | eapply C06_s_fresh_sound | eapply C06_positive_sound | eapply C06_negative_sound]; eassumption.
+Qed.
+Print Assumptions C06_source_judgements_sound.
